@@ -2,6 +2,7 @@ package schema
 
 import (
 	"context"
+	"fmt"
 )
 
 // Signal holds the definition for a single signal. This is universal for emitted or received.
@@ -108,6 +109,18 @@ func (s CallableSignalSchema[StepData, InputType]) Call(ctx context.Context, ste
 		return InvalidInputError{err}
 	}
 
-	s.handler(ctx, stepData.(StepData), input.(InputType))
+	// A nil step data (no initializer, or one that returns nil) is the zero value of StepData; asserting a nil
+	// interface to anything fails.
+	var typedStepData StepData
+	if stepData != nil {
+		var ok bool
+		typedStepData, ok = stepData.(StepData)
+		if !ok {
+			return BadArgumentError{
+				Message: fmt.Sprintf("Step data of type %T given to signal %s, expected %T", stepData, s.IDValue, typedStepData),
+			}
+		}
+	}
+	s.handler(ctx, typedStepData, input.(InputType))
 	return nil
 }
